@@ -1,20 +1,39 @@
 PROP = dict(
     gen=["octets"],
-    proof_files=["Properties/C20.v", "Proofs/FlagsProofs.v", "Proofs/OctetTables.v"],
-    model_files=["Model/Flags.v"],
-    trusted=["Gen/Octets.v is the complete 256-row tabulation of the running octet codecs (dumper: harness/gen_octets.go)"],
-    assumptions=["encoding/json, fmt.Sscanf, time.Date and time.Time accessors are Go library code, tied by the exhaustive table / the generated cases only"],
+    proof_files=["Properties/C20.v", "Proofs/FlagsProofs.v", "Proofs/OctetTables.v", "Proofs/CivilProofs.v", "Proofs/SmppTimeProofs.v"],
+    model_files=["Model/Flags.v", "Model/Civil.v", "Model/SmppTime.v", "Spec/SmppTimeSpec.v"],
+    trusted=["Gen/Octets.v is the complete 256-row tabulation of the running octet codecs (dumper: harness/gen_octets.go)",
+             "Model/SmppTime.v + Model/Civil.v are hand-written models of pdu/time.go and of the parts of Go's time, strconv and fmt "
+             "packages it calls; tied by the generated cases (every op line the harness executes inside the property's quantifier is "
+             "evaluated on the model by coqc and must reproduce the implementation's result)",
+             "Spec/SmppTimeSpec.v is a hand transcription of SMPP v5 4.7.23.4/5; harness/c20_time.go contains an independent Go "
+             "transcription (validAbs, daysSince2000) used by the direct tests",
+             "thorough tier only: the OCaml model extracted with ExtrOcamlBasic (coq/Extract/C20Extract.v, ocaml/c20_driver.ml) must agree "
+             "with the implementation on >= 100k op lines and with the kernel on the vm_compute slice"],
+    assumptions=["encoding/json, fmt.Sprintf, strconv.ParseInt, time.Date, time.FixedZone and the time.Time accessors are Go library code, "
+                 "tied by the exhaustive table / the generated cases only",
+                 "pdu.Time values are considered at tenth-of-second resolution in zones that are a whole number of quarter hours "
+                 "(what Time.From produces); pdu.Duration values are multiples of 0.1 s"],
 )
 GEN = {"octets": "Gen/Octets.v"}
-ENGINE = {"name": "scalar", "path": "coq/Model/Flags.v coq/Model/SmppTime.v harness/c20.go", "serves_properties": ["C20"],
-          "kind_free_text": "Coq model + exhaustive octet tables regenerated from the code + kernel-evaluated correspondence cases"}
+SETUP = [["tools/build_extract.sh"]]   # extracted OCaml models -> .work/ocaml/ (used by the thorough tier)
+ENGINE = {"name": "scalar", "path": "coq/Model/Flags.v coq/Model/SmppTime.v coq/Model/Civil.v coq/Spec/SmppTimeSpec.v harness/c20.go harness/c20_time.go harness/c20_extract.go coq/Extract/C20Extract.v ocaml/c20_driver.ml",
+          "serves_properties": ["C20"],
+          "kind_free_text": "Coq model + exhaustive octet tables regenerated from the code + kernel sweep over the 36,525 days of 2000-2099 + "
+                            "kernel-evaluated correspondence cases + extracted OCaml model diffed against the implementation (thorough)"}
 MANIFEST = dict(
     engine="scalar",
-    design_ref="DESIGN.md §5 C20",
-    technique="Coq proof (kernel sweeps over all 256 octets lifted to forall; table regenerated from code) + vm_compute correspondence",
-    text="Theorems in coq/Properties/C20.v: decode/encode identity and SMPP bit positions for esm_class and registered_delivery, "
+    design_ref="DESIGN.md §5 C20, notes/design_C20.md",
+    technique="Coq proof (kernel sweeps over all 256 octets / all 36,525 days of 2000-2099 lifted to forall; mixed-radix arithmetic by lia; "
+              "octet tables regenerated from code) + vm_compute correspondence + extracted-model diff (thorough)",
+    text="Theorems in coq/Properties/C20.v. Octets: decode/encode identity and SMPP bit positions for esm_class and registered_delivery, "
          "JSON round trip of interface_version, for all 256 octets, proved of the model AND of the complete table dumped from the "
-         "running code on this run (so the theorem speaks about the code, not a sample).",
-    note="Trusted: Coq kernel + vm_compute; the Go table dumper; Go's encoding/json, fmt and time packages (library code, tied by the tables / cases). "
-         "No axioms (Print Assumptions: closed under the global context).",
+         "running code on this run. Time: C20_time_fmt_parse (every instant at 0.1 s and every offset in [-48,48] quarter hours whose local "
+         "civil time lies in 2000-01-01..2099-12-31: Time.String gives a valid 16-character string that denotes the value and Time.From "
+         "returns it), C20_time_parse_fmt (every valid absolute string except nn=00 with '-' re-formats to itself and parses to what the "
+         "standard says it denotes), C20_time_neg_zero_refuted / C20_time_neg_zero_class (D29: exactly that class comes back with '+'), "
+         "C20_duration (every multiple of 0.1 s in [1 s, 100*8760 h)), C20_time_parse_total (no panic, acceptance shape).",
+    note="Trusted: Coq kernel + vm_compute; the Go table dumper and harness; the hand-written model of pdu/time.go and of the Go library "
+         "functions it calls (time.Date, accessors, strconv.ParseInt, fmt verbs), tied by ~25k kernel-evaluated cases per quick run (~174k thorough, plus ~660k lines through the extracted model) over the "
+         "full boundary product + random points. Known finding D29 (KNOWN_FINDINGS.txt). No axioms (Print Assumptions: closed under the global context).",
 )
